@@ -29,6 +29,7 @@ def run(ctx, res):
     deletion.byte0_examined(ctx, res, "C12.R3")
     pair_indices(ctx, res, "C12.R4")
     block_ranges_sorted(ctx, res, "C12.R5")
+    every_line_visited(ctx, res, "C12.R6")
 
 
 def dedent_amount_let(P, b):
@@ -495,3 +496,81 @@ def _lt(key, val, a, b):
     if (x, y) == (b, a):
         return val == ">"
     return False
+
+
+def every_line_visited(ctx, res, rule):
+    """`every surviving inner line is shifted`: the walk over the lines of the block goes from one line start to the next by a
+    *non-pausing* line-break scan from the current line start, stops only at the end of the block (or of the text), and a line
+    that has a non-blank character gets a range unless two of the range's candidate endpoints coincide (nothing to take)."""
+    import re as _re
+    P = ctx.lib
+    b = P.fn("BlockIndentRemover::format")
+    fn = fshort(b)
+    loc = T.loc(b["tree"])
+    loops = [n for n in T.nodes(b["tree"]) if n.get("k") in ("loop", "for")]
+    if len(loops) != 1 or loops[0].get("k") != "loop":
+        res.cannot(rule, fn, "line-walk", "expected one `while` / `loop` over the lines of the block", loc)
+        return
+    loop = loops[0]
+    I = A.Interp(P, max_paths=4000)
+    I.lazy_locals = True
+
+    def run(J):
+        env = {}
+        if "while_cond" in loop and not J.cond(loop["while_cond"], env):
+            raise A._Break(None)
+        return J.ev(loop["body"], env)
+    try:
+        outs = I.explore(run)
+    except A.Cannot as e:
+        res.cannot(rule, fn, "line-walk", str(e), loc)
+        return
+    ps = [p_["pat"].get("name") for p_ in b["params"]]
+    end = ps[3] if len(ps) == 4 else "end_byte_pos"
+    curs = {e[1] for o in outs for e in o["effects"] if e[0] == "assign"}
+    if len(curs) != 1:
+        res.cannot(rule, fn, "line-walk", "the line cursor (the one local assigned in the walk) was not identified: %s" % sorted(map(str, curs)), loc)
+        return
+    cur = str(list(curs)[0])
+    scan = "find_next_line_break_pos(content, bytes, %s, false)" % cur
+    nxt = "(%s.some + 1)" % scan
+
+    def rel(d, a, b_):
+        """the decided ordering of a against b_ ('<', '=', '>') or None"""
+        if "ord(%s, %s)" % (a, b_) in d:
+            return d["ord(%s, %s)" % (a, b_)]
+        v = d.get("ord(%s, %s)" % (b_, a))
+        return {"<": ">", ">": "<", "=": "="}.get(v)
+    n = 0
+    for o in outs:
+        d = o["decisions"]
+        label = ",".join("%s" % v for v in d.values())[:60]
+        bad = None
+        other = [k for k in d if "find_next_line_break_pos(" in k and scan not in k]
+        if other:
+            bad = "walks the lines with `%s`, not with a non-pausing scan from the current line start" % _re.findall(r"find_next_line_break_pos\([^()]*\)", other[0])[:1]
+        w = rel(d, cur, end)
+        has_next = d.get("is_some(%s)" % scan)
+        e_ = rel(d, nxt, end)
+        if bad:
+            pass
+        elif o["exit"] == "break":
+            if not (w in ("=", ">") or has_next is False or e_ == ">"):
+                bad = "leaves the walk although the current line starts inside the block and the next line start does not lie behind its end (decisions %s)" % dict(d)
+        elif o["exit"] in ("fall", "continue"):
+            asg = [A.show(e[2]) for e in o["effects"] if e[0] == "assign" and str(e[1]) == cur]
+            pushes = [e for e in o["effects"] if e[0] == "push"]
+            if w != "<" or has_next is not True or e_ not in ("<", "="):
+                bad = "goes on although the current line start is not inside the block / no further line break was found / the next line starts behind the end of the block"
+            elif asg != [nxt]:
+                bad = "continues at %s, not at the start of the next line `%s`" % (asg, nxt)
+            elif d.get("is_some(find_next_char_pos(content, bytes, %s))" % cur) is True and not pushes and not any(v == "=" for k, v in d.items() if k.startswith("ord(")):
+                bad = "leaves a line with a non-blank character without a range although no two candidate endpoints coincide"
+        else:
+            bad = "leaves the walk by `%s`" % o["exit"]
+        if bad:
+            res.add(Finding(rule, fn, "line-walk:" + label, "line walk of the block " + bad, loc=T.loc(loop)))
+        else:
+            n += 1
+            res.holds(rule, fn, "line-walk:" + label)
+    res.floor(rule, "paths of one step of the line walk", n, 10)
